@@ -25,7 +25,10 @@ CONSTANTS
   Tags,      \* checkpoint tags; "None" is the absent tag
   L,         \* length of a history
   Kinds,     \* id kinds on offer (one per history)
-  Str,       \* Str[kind][id] = str(id) as a sequence of symbols (ids are separator-free: no symbol is ".")
+  Str,       \* Str[kind][id] = str(id) as a sequence of symbols (ids are separator-free: no symbol is "."); the EMPTY
+             \* sequence is the string form of the empty string.  Some kinds consist of ids python treats as false (the
+             \* integer 0, the empty string) used as pid and as tag: the tag is ABSENT iff it is "None" (python: `is None`);
+             \* a falsy tag is a tag, a falsy pid a pid, and (p, falsy tag) is a key different from (p, None)
   Fixes,     \* repairs contained in the implementation under test
   Known      \* deviation identifiers of listed known findings (excused)
 
@@ -94,6 +97,7 @@ AbsMem(m, h) == [k \in Keys |-> IF MemHas(m, k) THEN <<h[m.tab[k[1]][k[2]]].imm,
 (* ----------------------------------------------------------------------------------------------- *)
 \* pickle_filename: f'{pid}.{tag}.pickle' if tag is not None else f'{pid}.pickle', as a sequence of symbols
 FileName(kd, k) == Str[kd][k[1]] \o (IF k[2] = "None" THEN <<>> ELSE <<".">> \o Str[kd][k[2]]) \o <<".", "pickle">>
+FileNameTable   == [kd \in Kinds |-> [p \in Procs |-> [t \in Tags |-> FileName(kd, <<p, t>>)]]]      \* the whole name function (conformance)
 IsPickle(name)  == Len(name) >= 2 /\ name[Len(name)] = "pickle" /\ name[Len(name) - 1] = "."      \* fnmatch '*.pickle'
 \* a file: its name and the pickled PersistedPickle(checkpoint = (pid, tag), bundle)
 FSave(kd, fs, k, v) == {f \in fs : f.name # FileName(kd, k)} \cup {[name |-> FileName(kd, k), key |-> k, snap |-> Snap(v)]}     \* open(..., 'w+b')
@@ -223,6 +227,8 @@ C14_ImplContracts == ~Corrupt =>
 C14_Equivalent == ~Corrupt => SameClass(last.mem, last.files)
 \* the file-name function separates the keys
 C14_FileNames == \A j, k \in Keys : j # k => FileName(kind, j) # FileName(kind, k)
+\* ... in particular a tag that is given - whatever its string form, the empty one included - never names the untagged file
+C14_TagPresent == \A p \in Procs : \A t \in Tags \ {"None"} : FileName(kind, <<p, t>>) # FileName(kind, <<p, "None">>)
 \* nothing goes wrong without a deviation clause saying so
 C14_Explained == (AbsMem(mem, heap) = store /\ AbsFiles(kind, files) = store /\ last.mem = last.files) \/ dev # {} \/ last.dev # {}
 =============================================================================
